@@ -539,6 +539,9 @@ def run(ctx):
             if case.get('tail') and apply_tail(st_, case):
                 second_pass(st_, case)
                 res.classes['asked-again-after-changes'] += 1
+            if case['source'] == 'history' and subtype_migration(st_, case):
+                res.classes['subtype-migration'] += 1
+                check_links_unchanged(st_, case)
         except Violation:
             raise
         except Exception as e:
@@ -546,6 +549,51 @@ def run(ctx):
 
     hyp_run(ctx, res, cases(), body, ctx.pick(1500, 5000), label='queries')
     return res
+
+
+def subtype_migration(st_, case):
+    """every supertype instance with one subtype instance is moved to a new instance of each other subtype class in turn
+    (unrelate, create, relate - through the runner, so the shadow follows); after every move navigate_subtype of every
+    supertype instance of the group must return the one related subtype instance. -> number of moves"""
+    r = st_.runner
+    groups = {}
+    for i, a in enumerate(st_.schema.assocs):
+        if a.get('shape') == 'subsuper':
+            groups.setdefault((a['rel'], a['tgt']), []).append(i)
+    moves = 0
+    for (rel, sup), idxs in sorted(groups.items()):
+        if len(idxs) < 2:
+            continue
+        for srec in list(r.sh.live(sup)):
+            for turn in range(len(idxs) + 1):
+                cur = [(i, p) for i in idxs for p in r.sh.partners(i, srec, False)]
+                if len(cur) != 1 or moves >= 12:
+                    break
+                i, x = cur[0]
+                j = idxs[(idxs.index(i) + 1) % len(idxs)]
+                try:
+                    r.apply(['unrelate', x.idx, srec.idx, rel, None, False])
+                    y = r.new(st_.schema.assocs[j]['src'])
+                    r.apply(['relate', y, srec.idx, rel, None, bool(turn % 2)])
+                except Violation as v:
+                    raise Violation('subtype-migration:' + v.bucket, case, v.detail)
+                moves += 1
+                for other in r.sh.live(sup):
+                    subs = [p.idx for k in idxs for p in r.sh.partners(k, other, False)]
+                    if len(subs) > 1:
+                        continue
+                    try:
+                        g = xtuml.navigate_subtype(r.real[other.idx], rel)
+                    except Exception as e:
+                        raise Violation('subtype-exception:' + exc_bucket(e), case, repr(e))
+                    got = None if g is None else r.idx_of(g)
+                    if got != (subs[0] if subs else None):
+                        raise Violation('navigate-subtype-wrong:after-migration', case,
+                                        'R%d from #%d after moving #%d from %s to %s: got %r want %r'
+                                        % (rel, other.idx, srec.idx, st_.schema.assocs[i]['src'], st_.schema.assocs[j]['src'], got, subs[0] if subs else None))
+    if moves:
+        st_.real = dict((rec.idx, r.real[rec.idx]) for rec in r.sh.recs)
+    return moves
 
 
 def second_pass(st_, case):
@@ -563,3 +611,5 @@ def replay(case):
     check_links_unchanged(st_, case)
     if case.get('tail') and apply_tail(st_, case):
         second_pass(st_, case)
+    if case['source'] == 'history' and subtype_migration(st_, case):
+        check_links_unchanged(st_, case)
